@@ -115,6 +115,16 @@ def run(tier, seed):
         if vd['clause'] != '':
             v.failure(dict(case=dict(trace=name), clause='Trace:' + vd['clause'], manifestation='rejected',
                            detail=vd, features=['trace', 'repo_test' if name.startswith('repo:') else 'walk']))
+    # the fixed-parameter wrapper of a mechanistic model is a mechanistic model too: its behaviour after every history of
+    # fix / re-fix / release and sensitivity switches must be that of a plain model with the net configuration -- the shared
+    # run of module FixParams (see C08), judged on the two ReducedMechanisticModel adapters
+    from . import check_c08
+    fx = cached('fixparams', tier, seed, lambda: check_c08._compute(tier, seed))
+    for fails, cnt in fx['results']:
+        mine = [f for f in fails if any('class_ReducedMechanisticModel' in x for x in f['features'])]
+        v.failures(mine)
+        if cnt.get('feat_class_ReducedMechanisticModel[PKPDModel]') or cnt.get('feat_class_ReducedMechanisticModel[ProbeMech]'):
+            v.count('reduced_wrapper_transitions', 1)
     for s in out['samples']:
         v.sample(s)
     nt = v.counters.get('feat_readministration_with_regimen', 0) + v.counters.get('feat_direct_after_indirect', 0)
